@@ -50,13 +50,29 @@ def border(d, rows):
 def spacetime_batch_obligations(G):
     """(configuration, thunk) pairs deciding the structure of CubicMeshPDENonStatio.get_batch's space-time batches"""
     out = []
-    for cart in (True, False):
+    for cart, equal in ((True, False), (False, False), (True, True)):
         for d in (1, 2):
             for with_border in (True, False):
                 cfg = {"cartesian_product": cart, "dim": d, "border": with_border}
+                if equal:
+                    cfg["batch_sizes"] = "temporal == interior == border"
 
-                def go(cart=cart, d=d, with_border=with_border):
+                def go(cart=cart, d=d, with_border=with_border, equal=equal):
+                    from .. import alg as _alg
                     rt, rx, rb = ("Bt", "Bx", "Bb") if cart else ("B", "B", "B")
+                    for nm in ("Bt", "Bx", "Bb"):
+                        _alg.AXIS_EXTENT.pop(nm, None)
+                    if equal:
+                        # three different tables that happen to have the same number of rows: still the full product
+                        for nm in ("Bt", "Bx", "Bb"):
+                            _alg.AXIS_EXTENT[nm] = K('b')
+                    try:
+                        return go_(cart, d, with_border, rt, rx, rb, equal)
+                    finally:
+                        for nm in ("Bt", "Bx", "Bb"):
+                            _alg.AXIS_EXTENT.pop(nm, None)
+
+                def go_(cart, d, with_border, rt, rx, rb, equal):
                     tvec = AT((rt,), np.array(T(rt), dtype=object))
                     x = batch_x(d, rx)
                     dx = border(d, rb) if with_border else None
@@ -64,6 +80,8 @@ def spacetime_batch_obligations(G):
                     if d == 1 and with_border:
                         # in 1-D the generator's own border_batch is used: the border is the stored pair of end points
                         over['omega_border'] = AT((2,), np.array([X(0, "facet0"), X(0, "facet1")], dtype=object))
+                    if equal and with_border and d > 1:
+                        over['omega_border_batch_size'] = SymDim(rb)
                     gen = G.nonstatio(d, border=with_border, cartesian=cart, temporal_batch_size=SymDim(rt),
                                       omega_batch_size=SymDim(rx), **over)
                     holder = {}
@@ -95,7 +113,7 @@ def spacetime_batch_obligations(G):
                     check_tensor(tdx, (brow, 1 + d, nf),
                                  lambda i: T(rt) if i[0] == 0 else X(i[0] - 1, rb, f"facet{i[1]}"), "times_x_border_batch")
                     return f"interior rows {rows}; border rows {brow}, same time column for all facets"
-                out.append((cfg, go, f"get_batch[{'cartesian' if cart else 'paired'},{d}D]"))
+                out.append((cfg, go, f"get_batch[{'cartesian' if cart else 'paired'},{d}D{', equal sizes' if equal else ''}]"))
     return out
 
 
